@@ -341,7 +341,7 @@ def check_frame(rule, kind, root=None):
         if b is None:
             rule.lost("%s in %s" % (name, p))
             continue
-        t = A.unparse(b.fn["body"]).replace(" ", "")
+        t = A.ftxt(b.fn["body"])
         param = b.params[1][0] if name == "build_load" else b.params[0][0]
         if "(self.0.stack_pos(%s)+(STACK_SIZE_LOWERasu32))" % param not in t:
             probs.append((b.fn["ln"], "%s: the spill offset must be stack_pos(%s) + STACK_SIZE_LOWER" % (name, param)))
